@@ -9,12 +9,17 @@ against the micro-step model (`admits`, for which `admits_sound` is proved).  Th
 implementation did, independently of the model.
 """
 import os
+import subprocess
 import sys
 import time
 
 from vlib import common as C
 
 PROP = 'C05'
+
+# the probes must not inherit knobs that change what goom or the Go runtime do (debug logging, race/GC/scheduler settings)
+for _v in ('GOOM_DEBUG', 'GORACE', 'GODEBUG', 'GOGC', 'GOMAXPROCS', 'GOTRACEBACK', 'GOMEMLIMIT'):
+    os.environ.pop(_v, None)
 META = {
     'property_id': 'C05',
     'technique': 'Lean 4 theorems about a transcription of BaseMatcher.Result / When.Return/AndReturn/Returns/invoke: sequential '
@@ -24,22 +29,25 @@ META = {
     'level': 'proof',
     'level_text': 'Full proof on the model: for every sequence length n>=1 and every list of calls (selecting this stub, other '
                   'conditions or the default in any order) the k-th call selecting a stub gets element min(k,n-1) and no other stub '
-                  'moves (calls_kth, independent, configured_sequence_served, returns_builds_*); for every schedule of any number '
+                  'moves (calls_kth, all_stubs_served, default_sequence_served, independent, returns_builds_*, matches_builds); for every schedule of any number '
                   'of concurrent callers every returned index is < n, a call invoked after another returned position v returns '
                   '>= min(v+1,n-1) (hence per-caller and real-time monotone, and sticky once the last element was returned), and the '
                   'cursor stays <= n-1+T so the int32 cannot wrap (conc_*); trace validation is sound (admits_sound).',
-    'level_note': 'The literal reading of "once the last element has been returned it is the only one returned" is false for '
-                  'overlapping calls (theorem literal_sticky_fails: a caller that loaded the cursor earlier may still return an '
-                  'earlier element); the real-time version (calls that start after the return) is what is proved and checked. '
+    'level_note': 'The return-order reading of "once the last element has been returned it is the only one returned" is false '
+                  '(def LiteralSticky, literal_sticky_false) and would be false of any implementation, even an atomic one '
+                  '(literal_sticky_fails_even_if_atomic: nobody controls when a caller observes its result); the real-time version '
+                  '(calls that start after the return) is what is proved and checked. Match/Eval of conditions are assumed pure. '
                   'Trusted: Lean kernel (propext, Classical.choice, Quot.sound), the hand transcription of when.go/mocker.go '
                   '(tied by differential runs on every evaluation), the go/ast extractor, the probe and its stamping. Not modelled: '
                   'reflect.MakeFunc/Call, Go memory model of the non-atomic curNum read on the single-result path (no writer exists '
                   'there; the -race run is the evidence), concurrent reconfiguration while calls run (outside the property).',
 }
 
-KINDS = ['f1', 'f2', 'me', 'if', 'v0', 'v1', 'v2', 'vm']
+KINDS = ['f1', 'f2', 'me', 'if', 'v0', 'v1', 'v2', 'vm', 'fe', 'fi', 'fb', 'xf']
+NIL_KINDS = ('fe', 'fi', 'fb')      # result type error / interface{} / []byte: token t is configured as nil when t % 5 == 0
+SIBLING_KINDS = ('f1', 'me', 'if', 'fe')  # kinds with a second target of the same signature (same builder): `T:k` switches
 VARIADIC = {'v0': 0, 'v1': 1, 'v2': 2, 'vm': 1}  # kind -> number of leading fixed parameters
-CONC_KINDS = ['f1', 'me', 'if', 'v1', 'v0']
+CONC_KINDS = ['f1', 'me', 'if', 'v1', 'v0', 'f2', 'v2', 'vm', 'xf']
 OFF2 = 100000  # value offset of the second sequence in `c05.conc … c …` (the probe subtracts it)
 
 
@@ -94,7 +102,7 @@ def rand_cond(rng, dom):
 def rand_len(rng):
     r = rng.below(20)
     if r == 0:
-        return 20 + rng.below(30)
+        return 20 + rng.below(30) if rng.chance(2, 3) else 100 + rng.below(60)
     if r < 5:
         return 1
     return 2 + rng.below(6)
@@ -142,20 +150,22 @@ def rand_vals(rng, base, ln):
     return vals
 
 
-def gen_spec(rng):
-    """A history inside the scope of the property: configure (default sequence, then conditions with their sequences), then only
-    call.  Returns (line, stubs, default) with stubs = [(cond, values)] in match order."""
-    kind = rng.choice(KINDS)
+def render(kind, v):
+    return 'vnil' if kind in NIL_KINDS and v % 5 == 0 else f'v{v}'
+
+
+def gen_spec_target(rng, kind, vbase=0):
+    """One target inside the scope of the property: (configuration tokens, call tokens, stubs, default)."""
     var = kind in VARIADIC
     call_pool, cond_pool = arg_pool(rng, kind)
     dom = len(cond_pool)
     toks = []
     have_when = False
     dflt = None
-    nstub = rng.below(5) + (rng.below(3) if var else 0)
+    nstub = rng.below(5) + (rng.below(3) if var else 0) + (8 + rng.below(12) if rng.chance(1, 25) else 0)
     mode = rng.below(3) if nstub else 1 + rng.below(2)
     if mode:
-        dflt = rand_vals(rng, 9000, rand_len(rng))
+        dflt = rand_vals(rng, vbase + 9000, rand_len(rng))
         if mode == 1:
             toks.append('mS:' + ','.join(map(str, dflt)))
         else:
@@ -166,12 +176,20 @@ def gen_spec(rng):
     for s in range(nstub):
         if have_when and rng.chance(1, 5):
             # Matches(Pair{a, v}, …): every pair is its own one-element stub
-            pairs = [(rng.choice(cond_pool), 1000 * (s + 1) + 500 + (j if rng.chance(1, 2) else 0)) for j in range(1 + rng.below(3))]
+            pairs = [(rng.choice(cond_pool), vbase + 1000 * (s + 1) + 500 + (j if rng.chance(1, 2) else 0)) for j in range(1 + rng.below(3))]
             toks.append('wM:' + ','.join(f'{a}={v}' for a, v in pairs))
             stubs += [(('e', [a]), [v]) for a, v in pairs]
             continue
-        c = ('e', [rng.choice(cond_pool)]) if var else rand_cond(rng, dom)
-        vals = rand_vals(rng, 1000 * (s + 1), min(rand_len(rng), 49))
+        if var:
+            # In([]interface{}{…}, …) alternatives must have one arity (a shorter first alternative ends InExpr.Eval: C04's business)
+            if have_when and rng.chance(1, 4):
+                t0 = rng.choice(cond_pool)
+                c = ('i', sorted({t0} | {t for t in cond_pool if len(str(t)) == len(str(t0)) and rng.chance(1, 2)}))
+            else:
+                c = ('e', [rng.choice(cond_pool)])
+        else:
+            c = rand_cond(rng, dom)
+        vals = rand_vals(rng, vbase + 1000 * (s + 1), rand_len(rng))
         if not have_when or (c[0] != 'i' and rng.chance(1, 3)):
             if c[0] == 'i':
                 c = ('e', [c[1][0]])
@@ -185,43 +203,74 @@ def gen_spec(rng):
             toks.append(f'wR:{vals[0]}')
             toks += [f'wA:{v}' for v in vals[1:]]
         stubs.append((c, vals))
-    ncall = 4 + rng.below(40) + (rng.below(200) if rng.chance(1, 8) else 0)
+    ncall = 4 + rng.below(40) + (rng.below(400) if rng.chance(1, 8) else 0)
     hot = rng.choice(call_pool)
-    for _ in range(ncall):
-        a = hot if rng.chance(1, 4) else rng.choice(call_pool)
-        toks.append(f'C:{a}')
-    return f'c05.seq {kind} ' + ' '.join(toks), stubs, dflt
+    calls = [f'C:{hot if rng.chance(1, 4) else rng.choice(call_pool)}' for _ in range(ncall)]
+    return toks, calls, stubs, dflt
 
 
-def spec_expected(line, stubs, dflt):
-    """The property itself: the k-th call selecting a stub gets element min(k, n-1); stubs advance independently."""
-    cnt = [0] * len(stubs)
-    dcnt = 0
+def gen_spec(rng):
+    """A history inside the scope of the property: configure (default sequence, then conditions with their sequences), then only
+    call — on one target, or on two targets of the same signature mocked through the same builder with their calls interleaved
+    (`T:k` switches).  Returns (line, [(stubs, default) per target]) with stubs = [(cond, values)] in match order."""
+    kind = rng.choice(KINDS)
+    cfg0, calls0, stubs0, dflt0 = gen_spec_target(rng, kind)
+    if kind not in SIBLING_KINDS or not rng.chance(1, 3):
+        return f'c05.seq {kind} ' + ' '.join(cfg0 + calls0), [(stubs0, dflt0), None]
+    # the sibling is given overlapping values on purpose: only the cursors tell the two targets apart
+    cfg1, calls1, stubs1, dflt1 = gen_spec_target(rng, kind, vbase=0 if rng.chance(1, 2) else 10000)
+    toks = cfg0 + ['T:1'] + cfg1
+    act, i0, i1 = 1, 0, 0
+    while i0 < len(calls0) or i1 < len(calls1):
+        k = 0 if i1 >= len(calls1) else 1 if i0 >= len(calls0) else rng.below(2)
+        if k != act:
+            toks.append(f'T:{k}')
+            act = k
+        if k == 0:
+            toks.append(calls0[i0]); i0 += 1
+        else:
+            toks.append(calls1[i1]); i1 += 1
+    return f'c05.seq {kind} ' + ' '.join(toks), [(stubs0, dflt0), (stubs1, dflt1)]
+
+
+def spec_expected(line, spec):
+    """The property itself: the k-th call selecting a stub gets element min(k, n-1); stubs (and targets) advance independently.
+    Returns (expected observations, per target [per-stub selection counts], per target default count)."""
+    kind = line.split()[1]
+    cnt = [[0] * len(sp[0]) if sp else [] for sp in spec]
+    dcnt = [0, 0]
     out = []
+    act = 0
     for tok in line.split()[2:]:
+        if tok.startswith('T:'):
+            act = int(tok[2:])
+            continue
         if not tok.startswith('C:'):
             continue
         a = int(tok[2:])
+        if spec[act] is None:
+            out.append('G')
+            continue
+        stubs, dflt = spec[act]
         for i, (c, vals) in enumerate(stubs):
             if cond_hit(c, a):
-                out.append('v%d' % vals[min(cnt[i], len(vals) - 1)])
-                cnt[i] += 1
+                out.append(render(kind, vals[min(cnt[act][i], len(vals) - 1)]))
+                cnt[act][i] += 1
                 break
         else:
             if dflt is None:
                 out.append('P')
             else:
-                out.append('v%d' % dflt[min(dcnt, len(dflt) - 1)])
-                dcnt += 1
+                out.append(render(kind, dflt[min(dcnt[act], len(dflt) - 1)]))
+                dcnt[act] += 1
     return out, cnt, dcnt
 
 
-def spec_of_line(line):
-    """If a c05.seq line lies inside the scope of the property (every stub is configured once, by When/In + Returns or
-    Return+AndReturn…, by Matches, or — the default — by mocker.Returns / mocker.Return+AndReturn…; then only calls), return
-    (stubs, default); else None."""
+def spec_of_tokens(toks):
+    """Scope test for the tokens of ONE target: every stub is configured once — by When/In + Returns or Return+AndReturn…, by
+    Matches, or (the default, first) by mocker.Returns / mocker.Return+AndReturn… — and then there are only calls.
+    Returns (stubs, default) or None."""
     stubs, dflt, cur, calls = [], None, None, False
-    toks = line.split()[2:]
     for j, tok in enumerate(toks):
         k, _, a = tok.partition(':')
         if k == 'C':
@@ -237,7 +286,7 @@ def spec_of_line(line):
             dflt.append(int(a))
         elif k == 'wA' and isinstance(cur, int) and stubs[cur][1]:
             stubs[cur][1].append(int(a))
-        elif k in ('mW', 'wW') and (k == 'wW' or j == 0 or True):
+        elif k in ('mW', 'wW'):
             c = ('y', []) if a == 'y' else (a[0], [int(x) for x in a[1:].split(',')])
             stubs.append((c, []))
             cur = len(stubs) - 1
@@ -256,6 +305,30 @@ def spec_of_line(line):
     return stubs, dflt
 
 
+def spec_of_line(line):
+    """Per target (`T:k` switches) the scope test of spec_of_tokens; a target that is only called is the original function.
+    Returns [spec0, spec1] (None for an unmocked target) or None when the line is outside the scope of the property."""
+    per = [[], []]
+    act = 0
+    for tok in line.split()[2:]:
+        if tok.startswith('T:'):
+            if tok[2:] not in ('0', '1'):
+                return None
+            act = int(tok[2:])
+        else:
+            per[act].append(tok)
+    out = []
+    for toks in per:
+        if all(t.startswith('C:') for t in toks):
+            out.append(None)
+            continue
+        sp = spec_of_tokens(toks)
+        if sp is None:
+            return None
+        out.append(sp)
+    return out
+
+
 def gen_free(rng):
     """Anything the API allows: configuration and calls interleaved, repeated Return on one condition, AndReturn first, …"""
     kind = rng.choice(KINDS)
@@ -272,6 +345,8 @@ def gen_free(rng):
 
     for _ in range(2 + rng.below(30)):
         r = rng.below(20)
+        if kind in SIBLING_KINDS and rng.chance(1, 12):
+            toks.append(f'T:{rng.below(2)}')
         if r < 8:
             toks.append(f'C:{rng.choice(call_pool)}')
         elif r < 10:
@@ -284,6 +359,9 @@ def gen_free(rng):
             toks.append('wM:' + ','.join(f'{rng.choice(cond_pool)}={val()}' for _ in range(1 + rng.below(3))))
         else:
             c = ('e', [rng.choice(cond_pool)]) if var else rand_cond(rng, dom)
+            if var and rng.chance(1, 4):
+                t0 = c[1][0]
+                c = ('i', sorted({t0} | {t for t in cond_pool if len(str(t)) == len(str(t0)) and rng.chance(1, 2)}))
             if c[0] != 'i' and rng.chance(1, 2):
                 toks.append('mW:' + show_cond(c))
             else:
@@ -292,7 +370,7 @@ def gen_free(rng):
 
 
 def gen_malformed(rng):
-    return rng.choice(['c05.seq', 'c05.seq zz C:1', 'c05.seq f1 Q:1', 'c05.seq f1 mR', 'c05.seq me C:1 wZ:3', 'c05.serve 1',
+    return rng.choice(['c05.seq', 'c05.seq zz C:1', 'c05.seq f2 mR:1 T:1 mR:2', 'c05.seq f1 T:2 C:1', 'c05.seq f1 Q:1', 'c05.seq f1 mR', 'c05.seq me C:1 wZ:3', 'c05.serve 1',
                        'c05.serve 1 2 3', 'c05.seq if mR:1 ::', 'c05.seq f9 mR:1 C:1'])
 
 
@@ -304,7 +382,7 @@ def gen_conc(tier, rng, count):
         K = rng.choice([1, 2, 3, 4, 8, 16] + ([64] if tier == 'thorough' else []))
         total = G * K
         n = rng.choice([1, 2, 2, 3, 4, max(2, total // 4), max(2, total // 2), total, total + 7, 2 * total])
-        mode = 'c' if rng.chance(1, 3) and G >= 2 else ('r' if rng.chance(1, 6) else 'd')
+        mode = rng.choice(['c', 'n']) if rng.chance(2, 5) and G >= 2 else ('r' if rng.chance(1, 6) else 'd')
         ops.append(f'c05.conc {rng.choice(CONC_KINDS)} {mode} {n} {G} {K}')
     return ops
 
@@ -432,7 +510,9 @@ def witness(n, evs):
 def witness_dfs(n, evs, budget=400000):
     """Complete fallback: memoised search over all placements of the internal steps.  Returns tokens, None (no run exists) or
     'budget'."""
-    sys.setrecursionlimit(100000)
+    if len(evs) > 1500:
+        return 'budget'   # recursion depth ~ number of events
+    sys.setrecursionlimit(max(sys.getrecursionlimit(), 12000))
     val = {}
     pend = {}
     for k, (kind, t, v) in enumerate(evs):
@@ -493,12 +573,56 @@ def build_probe(race=False):
     return b
 
 
-def run_lines(binary, test, ops, tag, timeout=1500):
+def run_lines(binary, test, ops, tag, timeout=3000):
+    """Run the probe on `ops`.  A probe that dies or times out is re-run ONCE; a failure that does not reproduce is not reported.
+    A crash that reproduces is pinned to the op that was executing (`crash:rc=…` becomes that op's observation, a violation of
+    whatever was demanded of it) and the remaining ops are run in a fresh process.  Two timeouts are a machinery error."""
     ops_path = os.path.join(C.BUILD, f'{tag}.ops')
     open(ops_path, 'w').write('\n'.join(ops) + '\n')
-    outp = os.path.join(C.BUILD, f'{tag}.impl')
-    rc, log = C.run_probe(binary, test, ops_path, outp, timeout=timeout)
-    return rc, log, C.read_indexed(outp, len(ops)), ops_path
+
+    def once(sub, path):
+        outp = path[:-4] + '.impl'
+        try:
+            rc, log = C.run_probe(binary, test, path, outp, timeout=timeout)
+        except subprocess.TimeoutExpired:
+            return -9, 'timeout', C.read_indexed(outp, len(sub))
+        return rc, log, C.read_indexed(outp, len(sub))
+
+    rc, log, impl = once(ops, ops_path)
+    if None in impl:
+        C.log(f'C05: probe {test} incomplete (rc={rc}); re-running once')
+        rc, log, impl = once(ops, ops_path)
+        if None in impl and rc == -9:
+            raise C.Infra(f'probe {test} timed out twice ({timeout}s each)')
+        crashes = 0
+        while None in impl:
+            k = impl.index(None)
+            crashes += 1
+            if crashes > 4:
+                raise C.Infra(f'probe {test} keeps dying (rc={rc}): {log[-600:]}')
+            impl[k] = f'crash:rc={rc}'
+            rest = ops[k + 1:]
+            if not rest:
+                break
+            rp = os.path.join(C.BUILD, f'{tag}.rest{crashes}.ops')
+            open(rp, 'w').write('\n'.join(rest) + '\n')
+            rc, log2, impl2 = once(rest, rp)
+            log += log2
+            impl[k + 1:] = impl2
+    return rc, log, impl, ops_path
+
+
+def race_reports(log):
+    """Race-detector reports that involve goom's stub/sequence code (root package files); reports that only touch other code
+    (logger, patching, the probe helpers) are returned separately and never counted against the property."""
+    rel, other = [], []
+    for blk in log.split('WARNING: DATA RACE')[1:]:
+        blk = blk.split('==================')[0]
+        if any(f in blk for f in ('goom/matcher.go', 'goom/when.go', 'goom/mocker.go', 'goom/iface.go', 'goom/arg/')):
+            rel.append(blk[:1500])
+        else:
+            other.append(blk[:600])
+    return rel, other
 
 
 def validate_conc(exe, ops, impl, tag):
@@ -510,8 +634,8 @@ def validate_conc(exe, ops, impl, tag):
         toks = op.split()
         n = int(toks[3])
         obs = impl[i]
-        if obs is None or obs.startswith('config-panic') or obs == 'bad-op':
-            res['oracle_bad'].append((i, op, obs, 'no history (probe crashed or configuration panicked)'))
+        if obs is None or obs.startswith('config-panic') or obs.startswith('crash:') or obs == 'bad-op':
+            res['oracle_bad'].append((i, op, obs, 'no history: the probe process died reproducibly on this round or the configuration panicked'))
             continue
         repeated = toks[2] == 'r'
         for part in obs.split(' ; '):
@@ -573,8 +697,7 @@ def seq_oracle(specs, ops, impl):
     for i, op in enumerate(ops):
         if op not in specs:
             continue
-        stubs, dflt = specs[op]
-        exp, cnt, dcnt = spec_expected(op, stubs, dflt)
+        exp, cnt, dcnt = spec_expected(op, specs[op])
         obs = impl[i]
         got = obs.split(' | ')[0].split() if obs and ' | ' in obs else None
         if got == ['-']:
@@ -604,7 +727,7 @@ def serve_oracle(ops, impl):
 
 def sizes(tier):
     if tier == 'quick':
-        return {'spec': 1000, 'free': 1000, 'mal': 20, 'conc': 500, 'conc_race': 80, 'seq_race': 100}
+        return {'spec': 2000, 'free': 1500, 'mal': 20, 'conc': 800, 'conc_race': 120, 'seq_race': 150}
     return {'spec': 20000, 'free': 20000, 'mal': 60, 'conc': 10000, 'conc_race': 1000, 'seq_race': 1500}
 
 
@@ -632,11 +755,12 @@ def explore(tier, rng, exe, bins, scale=1, tag='c05'):
                 specs[l] = sp
     seq_ops += gen_serve(tier)
     for _ in range(sz['spec']):
-        line, stubs, dflt = gen_spec(rng)
+        line, spec = gen_spec(rng)
         sp = spec_of_line(line)
-        if sp is None or [(c, list(v)) for c, v in sp[0]] != [((c[0], list(c[1])), list(v)) for c, v in stubs] or sp[1] != dflt:
+        norm = lambda x: None if x is None else ([((c[0], list(c[1])), list(v)) for c, v in x[0]], x[1])
+        if sp is None or [norm(x) for x in sp] != [norm(x) for x in spec]:
             raise C.Infra('generator and scope parser disagree on ' + line)
-        specs[line] = (stubs, dflt)
+        specs[line] = spec
         seq_ops.append(line)
     seq_ops += [gen_free(rng) for _ in range(sz['free'])]
     mal = [gen_malformed(rng) for _ in range(sz['mal'])]
@@ -645,15 +769,11 @@ def explore(tier, rng, exe, bins, scale=1, tag='c05'):
     conc_ops += gen_conc(tier, rng, sz['conc'])
     r = {'specs': specs, 'seq_ops': seq_ops, 'conc_ops': conc_ops, 'malformed': len(set(mal)), 'corpus': n_corpus, 'infra': []}
     rc, log, impl, ops_path = run_lines(bins['plain'], 'TestVerifC05', seq_ops, tag + '.seq')
-    if rc != 0:
-        r['infra'].append(f'sequential probe exited rc={rc}: {log[-800:]}')
     r['seq_impl'] = impl
     r['seq_model'] = C.run_driver(exe, ops_path, os.path.join(C.BUILD, tag + '.seq.model'))
     r['seq_bad'] = seq_oracle(specs, seq_ops, impl) + serve_oracle(seq_ops, impl)
     r['seq_diffs'] = C.diff_streams(seq_ops, impl, r['seq_model'])
     rc, log, cimpl, _ = run_lines(bins['plain'], 'TestVerifC05Conc', conc_ops, tag + '.conc')
-    if rc != 0:
-        r['infra'].append(f'concurrent probe exited rc={rc}: {log[-800:]}')
     r['conc_impl'] = cimpl
     r['conc'] = validate_conc(exe, conc_ops, cimpl, tag + '.conc')
     # the same probes under the race detector
@@ -661,12 +781,15 @@ def explore(tier, rng, exe, bins, scale=1, tag='c05'):
     if bins.get('race'):
         rops = gen_conc(tier, rng, sz['conc_race'])
         rc, log, rimpl, _ = run_lines(bins['race'], 'TestVerifC05Conc', rops, tag + '.rconc')
-        races = log.count('WARNING: DATA RACE')
+        rel, other = race_reports(log)
         rr = validate_conc(exe, rops, rimpl, tag + '.rconc')
         sops = [l for l in seq_ops if l in specs][:sz['seq_race']]
         rc2, log2, simpl, _ = run_lines(bins['race'], 'TestVerifC05', sops, tag + '.rseq')
-        races += log2.count('WARNING: DATA RACE')
-        r['race'] = {'ops': rops, 'impl': rimpl, 'res': rr, 'reports': races, 'log': (log + log2)[-3000:] if races else '',
+        rel2, other2 = race_reports(log2)
+        rel, other = rel + rel2, other + other2
+        if other:
+            C.log(f'C05: {len(other)} race report(s) outside the stub/sequence code (not counted): {other[0][:300]}')
+        r['race'] = {'ops': rops, 'impl': rimpl, 'res': rr, 'reports': len(rel), 'unrelated_reports': len(other), 'log': '\n'.join(rel)[:3000],
                      'seq_ops': sops, 'seq_bad': seq_oracle(specs, sops, simpl), 'rc': (rc, rc2)}
     return r
 
@@ -716,8 +839,17 @@ def run(tier):
         C.log('C05: infrastructure notes:', r['infra'], 'inconclusive witness searches:', len(r['conc']['inconclusive']))
     write_evidence(out, tier, proof, r, changed, widened)
     rcode = out.finish()
-    if rcode == 0 and (r['infra'] or len(r['conc']['inconclusive']) > max(2, r['conc']['histories'] // 50)):
-        raise C.Infra('probe failure or too many inconclusive witness searches: ' + '; '.join(r['infra'])[:500])
+    if rcode == 0:
+        # floors: a lane that silently ran nothing is a machinery error, never a pass
+        c, rc_ = r['conc'], (r['race']['res'] if r['race'] else None)
+        n_spec = sum(1 for i, op in enumerate(r['seq_ops']) if op in r['specs'] and (r['seq_impl'][i] or '').startswith(('v', 'P', 'G')))
+        floors = [('in-scope sequential histories with observations', n_spec, len(r['specs']) // 2),
+                  ('concurrent histories', c['histories'], len(r['conc_ops']) // 2),
+                  ('concurrent histories replayed by the model', c['admitted'], max(1, (c['histories'] - c.get('repeated_value_histories', 0)) // 2)),
+                  ('concurrent histories under -race', rc_['histories'] if rc_ else 0, 1)]
+        low = [f'{what}: {got} < {need}' for what, got, need in floors if got < need]
+        if low or r['infra']:
+            raise C.Infra('a lane did not run: ' + '; '.join(low + r['infra'])[:600])
     return rcode
 
 
@@ -736,7 +868,7 @@ def collect(r):
         for i, op, obs, why in r['race']['seq_bad'][:1]:
             f.append((f'{op[:160]} (under -race): {why}', {'kind': 'impl-oracle', 'ops': [op], 'observed': obs, 'why': why, 'race_build': True}))
         if r['race']['reports']:
-            f.append((f'the race detector reported {r["race"]["reports"]} data race(s) while concurrent callers consumed one result sequence',
+            f.append((f'the race detector reported {r["race"]["reports"]} data race(s) in goom\'s stub/sequence code (matcher.go/when.go/mocker.go/iface.go/arg) while concurrent callers consumed one result sequence',
                       {'kind': 'race-detector', 'ops': r['race']['ops'][:5], 'log': r['race']['log'], 'race_build': True}))
     return f
 
@@ -770,8 +902,13 @@ def write_evidence(out, tier, proof, r, changed, widened):
         dist['Matches_calls'] = dist.get('Matches_calls', 0) + sum(1 for x in t[2:] if x.startswith('wM:'))
         if op in specs:
             dist['spec_histories'] += 1
-            stubs, dflt = specs[op]
-            _, cnt, dcnt = spec_expected(op, stubs, dflt)
+            _, cnts, dcnts = spec_expected(op, specs[op])
+            if specs[op][1] is not None:
+                dist['two_target_spec_histories'] = dist.get('two_target_spec_histories', 0) + 1
+            if t[1] in NIL_KINDS:
+                dist['interface_or_slice_typed_result_histories'] = dist.get('interface_or_slice_typed_result_histories', 0) + 1
+            stubs, dflt = specs[op][0] if specs[op][0] else ([], None)
+            cnt, dcnt = cnts[0], dcnts[0]
             adv = sum(1 for k in cnt if k > 0) + (1 if dcnt else 0)
             if adv >= 2:
                 dist['histories_with_>=2_stubs_advancing'] += 1
@@ -837,7 +974,7 @@ def write_evidence(out, tier, proof, r, changed, widened):
         'distribution': {'sequential': dist, 'concurrent': conc_dist, 'gen_cursor_changed_this_run': changed, 'widened_search_evaluations': widened},
         'samples': samples,
     }
-    out.assumptions = ['goroutine stamps from one global atomic counter order invocation/response events consistently with real time',
+    out.assumptions = ['Match/Eval of conditions are pure and thread-safe (selection never reads a cursor: theorem independent)', 'goroutine stamps from one global atomic counter order invocation/response events consistently with real time',
                        'callers never reconfigure a stub while calls are running (the property quantifies over concurrent callers only)']
 
 
@@ -858,8 +995,8 @@ def replay(body):
         for i, op in enumerate(seq):
             why = None
             if spec and len(spec) == 2:
-                stubs = [((c[0], c[1]), v) for c, v in spec[0]]
-                exp, _, _ = spec_expected(op, stubs, spec[1])
+                sp2 = [None if x is None else ([((c[0], c[1]), v) for c, v in x[0]], x[1]) for x in spec]
+                exp, _, _ = spec_expected(op, sp2)
                 got = (impl[i] or '').split(' | ')[0].split()
                 got = [] if got == ['-'] else got
                 if got != exp:
